@@ -11,6 +11,7 @@ mod access_list;
 mod validator;
 mod udp_codec;
 mod ws_swarm;
+mod addr;
 
 use std::collections::HashMap;
 
@@ -111,6 +112,7 @@ fn main() {
         "validator" => validator::run(&args),
         "udp-codec" => udp_codec::run(&args),
         "ws-swarm" => ws_swarm::run(&args),
+        "addr" => addr::run(&args),
         "export-child" => export_crash::child(&args),
         other => {
             eprintln!("unknown suite {}", other);
